@@ -35,6 +35,11 @@ MODEL_OPS = {
 def spec_supported(program: dict) -> bool:
     from .triggers import fn_ops
 
+    if program.get("backend_dependent"):
+        # e.g. an unmarked order key over nulls: the value is each backend's choice; only statements about one backend
+        # (two formulations agree) are made about such a program
+        return False
+
     for st in program["stmts"]:
         if not fn_ops(st) <= MODEL_OPS:
             return False
